@@ -1,4 +1,5 @@
-(* Proofs.BuildC11 — the output tree is the fresh build; crash recovery (C11).  About the repaired model [fixed]. *)
+(* Proofs.BuildC11 — the output tree is the fresh build; crash recovery (C11).  About every [sound] variant of the
+   model ([fixed], [hardened], ...); the certificate theorems at the end need [v_cert_atomic]. *)
 From Coq Require Import String List Bool Arith Lia.
 From JMCV Require Import Model.FS Model.Build Proofs.FS Proofs.Build Proofs.BuildC10.
 Import ListNotations.
@@ -109,18 +110,19 @@ Proof.
   - eapply IH; eauto. intros F' s' H'. apply Hl. simpl. auto.
 Qed.
 
-Lemma del_list_fixed_ok : forall c h F s,
-  In (F, s) (del_list fixed c h) -> F <> [] /\ (h_statics h <> [] -> s = true).
+Lemma del_list_fixed_ok : forall v c h F s,
+  sound v -> In (F, s) (del_list v c h) -> F <> [] /\ (h_statics h <> [] -> s = true).
 Proof.
-  intros c h F s H. split.
+  intros v c h F s Hv H. split.
   - apply del_list_folderish in H. destruct (folderish_shape _ _ _ H) as [z ->]. discriminate.
   - intros _. eapply del_list_fixed_flag; eauto.
 Qed.
 
-Lemma inside_del_list : forall c h p,
-  inside c h p = true -> exists F s, In (F, s) (del_list fixed c h) /\ is_prefix F (removelast p) = true.
+Lemma inside_del_list : forall v c h p,
+  sound v ->
+  inside c h p = true -> exists F s, In (F, s) (del_list v c h) /\ is_prefix F (removelast p) = true.
 Proof.
-  intros c h p H. unfold inside, in_folders in H. unfold del_list. simpl.
+  intros v c h p (_ & Hm & Hl) H. unfold inside, in_folders in H. unfold del_list. rewrite Hl, Hm.
   apply orb_true_iff in H as [H|H]; [apply orb_true_iff in H as [H|H]|].
   - exists (ns_dir c), true. split; auto. apply in_or_app. right. simpl. auto.
   - apply existsb_exists in H as (o & Ho & Hp). destruct (String.eqb o (c_ns c)) eqn:E.
@@ -131,11 +133,11 @@ Proof.
 Qed.
 
 (* the deletion phase never touches #static content *)
-Lemma del_phase_fixed_static : forall c h cur o,
-  In o (del_phase h cur (del_list fixed c h)) -> excepted h (op_path o) = false.
+Lemma del_phase_fixed_static : forall v c h cur o,
+  sound v -> In o (del_phase h cur (del_list v c h)) -> excepted h (op_path o) = false.
 Proof.
-  intros c h cur o H. apply del_phase_shape in H as (F & s & cur' & Hin & Ho).
-  apply rm_folder_shape in Ho as (_ & _ & R). apply del_list_fixed_flag in Hin. subst s.
+  intros v c h cur o Hv H. apply del_phase_shape in H as (F & s & cur' & Hin & Ho).
+  apply rm_folder_shape in Ho as (_ & _ & R). apply del_list_fixed_flag in Hin; auto. subst s.
   destruct (h_statics h) eqn:E; [apply excepted_nil; exact E|]. apply R; auto; discriminate.
 Qed.
 
@@ -188,16 +190,19 @@ Proof.
   rewrite !fops_app. f_equal; [apply copy_ops_fops | apply IH].
 Qed.
 
-Definition pre_ops (c : cfg) (h : hdr) (cur : fs) : list op :=
-  let ops1 := make_cert c cur in
+Lemma make_cert_fops : forall a c cur, fops (make_cert a c cur) = fops (cert_tail a c).
+Proof. intros. unfold make_cert. rewrite fops_app, mkdir_p_fops. reflexivity. Qed.
+
+Definition pre_ops (a : bool) (c : cfg) (h : hdr) (cur : fs) : list op :=
+  let ops1 := make_cert a c cur in
   let cur1 := run_ops ops1 cur in
   let ops2 := copy_phase h cur1 in
   let cur2 := run_ops ops2 cur1 in
   ops1 ++ ops2 ++ mkdir_p cur2 (tags_dir c).
 
-Lemma pre_ops_fops : forall c h cur cur', fops (pre_ops c h cur) = fops (pre_ops c h cur').
+Lemma pre_ops_fops : forall a c h cur cur', fops (pre_ops a c h cur) = fops (pre_ops a c h cur').
 Proof.
-  intros. unfold pre_ops. rewrite !fops_app, !mkdir_p_fops. unfold make_cert. rewrite !write_file_fops.
+  intros. unfold pre_ops. rewrite !fops_app, !mkdir_p_fops, !make_cert_fops.
   f_equal. f_equal. unfold copy_phase. destruct (h_copy h); auto. apply copy_items_fops.
 Qed.
 
@@ -205,17 +210,28 @@ Definition post_ops (c : cfg) (h : hdr) (o : output) (cur3 : fs) (lv tv : list s
   let ops4 := tag_ops c o lv tv in
   ops4 ++ write_files (run_ops ops4 cur3) (out_files c h o) ++ meta_ops h o.
 
-Lemma write_phase_unfold : forall c h o cur,
-  write_phase c h o cur =
-  let pre := pre_ops c h cur in
+(* the tag values the write phase works with: handed over (read before the first mutation), or read here *)
+Definition tags_at (c : cfg) (tags : option (list string * list string)) (cur3 : fs)
+  : option (list string) * option (list string) :=
+  match tags with
+  | Some (lv, tv) => (Some lv, Some tv)
+  | None => (read_tag c cur3 (load_path c), read_tag c cur3 (tick_path c))
+  end.
+
+Lemma write_phase_unfold : forall v c h o tags cur,
+  write_phase v c h o tags cur =
+  let pre := pre_ops (v_cert_atomic v) c h cur in
   let cur3 := run_ops pre cur in
-  match read_tag c cur3 (load_path c), read_tag c cur3 (tick_path c) with
-  | Some lv, Some tv => (pre ++ post_ops c h o cur3 lv tv, RDone)
-  | _, _ => (pre, RTagErr)
+  match tags_at c tags cur3 with
+  | (Some lv, Some tv) => (pre ++ post_ops c h o cur3 lv tv, RDone)
+  | _ => (pre, RTagErr)
   end.
 Proof.
-  intros. unfold write_phase, pre_ops, post_ops. cbv zeta. rewrite !run_ops_app.
-  destruct (read_tag c _ (load_path c)); [destruct (read_tag c _ (tick_path c))|]; try reflexivity.
+  intros. unfold write_phase, pre_ops, post_ops, tags_at. cbv zeta. rewrite !run_ops_app.
+  destruct (match tags with
+            | Some (lv, tv) => (Some lv, Some tv)
+            | None => (read_tag c _ (load_path c), read_tag c _ (tick_path c))
+            end) as [[lv|] [tv|]]; try reflexivity.
   rewrite <- !app_assoc. reflexivity.
 Qed.
 
@@ -238,33 +254,51 @@ Lemma fsem_fops_eq : forall p a b i, fops a = fops b -> fsem p a i = fsem p b i.
 Proof. intros p a b i H. rewrite (fsem_fops p a), (fsem_fops p b). unfold fops in H. rewrite H. reflexivity. Qed.
 
 (* ------------------------------------------------------------------ a build from a startable state *)
-Definition dops_of (c : cfg) (h : hdr) (s : fs) : list op :=
-  if is_dir s (ns_dir c) then del_phase h s (del_list fixed c h) else [].
+Definition dops_of (v : variant) (c : cfg) (h : hdr) (s : fs) : list op :=
+  if is_dir s (ns_dir c) then del_phase h s (del_list v c h) else [].
 
-Lemma run_startable : forall c h o s,
-  startable c h s ->
-  run fixed c h (Success o) None s =
-    (dops_of c h s ++ fst (write_phase c h o (run_ops (dops_of c h s) s)),
-     snd (write_phase c h o (run_ops (dops_of c h s) s))).
+(* what build() settles before the first mutation: None = an unparsable tag file (RTagErr, [v_tags_early]);
+   Some tags = the argument of the write phase *)
+Definition tags_of (v : variant) (c : cfg) (h : hdr) (s : fs) : option (option (list string * list string)) :=
+  if v_tags_early v then
+    match early_tag c h (is_dir s (ns_dir c)) s (load_path c), early_tag c h (is_dir s (ns_dir c)) s (tick_path c) with
+    | Some lv, Some tv => Some (Some (lv, tv))
+    | _, _ => None
+    end
+  else Some None.
+
+Lemma run_startable : forall v c h o s,
+  sound v -> startable c h s ->
+  run v c h (Success o) None s =
+    match tags_of v c h s with
+    | Some tg => (dops_of v c h s ++ fst (write_phase v c h o tg (run_ops (dops_of v c h s) s)),
+                  snd (write_phase v c h o tg (run_ops (dops_of v c h s) s)))
+    | None => ([], RTagErr)
+    end.
 Proof.
-  intros c h o s [[Hd Hf]|[Hd _]]; unfold run, dops_of; rewrite Hd.
-  - rewrite Hf. unfold build. cbv zeta.
-    destruct (write_phase c h o (run_ops (del_phase h s (del_list fixed c h)) s)) as [w r]. reflexivity.
-  - unfold build. simpl. destruct (write_phase c h o s) as [w r]. reflexivity.
+  intros v c h o s (Hce & _ & _) [[Hd Hf]|[Hd _]]; unfold run, dops_of, tags_of; rewrite Hd, ?Hf, ?Hce;
+    cbn [run_ops app]; unfold build; destruct (v_tags_early v).
+  - destruct (early_tag c h true s (load_path c)) as [lv|]; [destruct (early_tag c h true s (tick_path c)) as [tv|]|];
+      reflexivity.
+  - unfold build_with. cbv zeta.
+    destruct (write_phase v c h o None (run_ops (del_phase h s (del_list v c h)) s)) as [w r]. reflexivity.
+  - destruct (early_tag c h false s (load_path c)) as [lv|]; [destruct (early_tag c h false s (tick_path c)) as [tv|]|];
+      reflexivity.
+  - unfold build_with. cbn [run_ops app]. destruct (write_phase v c h o None s) as [w r]. reflexivity.
 Qed.
 
-Lemma after_deletion : forall c h s m,
-  startable c h s -> exec (dops_of c h s) s = Some m ->
+Lemma after_deletion : forall v c h s m,
+  sound v -> startable c h s -> exec (dops_of v c h s) s = Some m ->
   (forall p, inside c h p = true -> excepted h p = false -> file_at m p = None) /\
   (forall p, excepted h p = true -> file_at m p = file_at s p).
 Proof.
-  intros c h s m Hs He. unfold dops_of in He. destruct Hs as [[Hd Hf]|[Hd Hc]]; rewrite Hd in He.
+  intros v c h s m Hv Hs He. unfold dops_of in He. destruct Hs as [[Hd Hf]|[Hd Hc]]; rewrite Hd in He.
   - split.
     + intros p Hi Hx. eapply del_phase_clears; eauto.
       * intros F s0 HF. eapply del_list_fixed_ok; eauto.
-      * apply inside_del_list. exact Hi.
+      * apply inside_del_list; auto.
     + intros p Hx. rewrite !file_at_node. erewrite exec_frame; eauto.
-      intros o Ho Hp. apply del_phase_fixed_static in Ho. congruence.
+      intros o Ho Hp. apply del_phase_fixed_static in Ho; auto. congruence.
   - simpl in He. inversion He; subst m. split; auto.
 Qed.
 
@@ -277,67 +311,97 @@ Proof.
   intros. unfold inside, tick_path. rewrite removelast_last. apply tags_in_folders.
 Qed.
 
+Lemma read_tag_content : forall c cur p, read_tag c cur p = read_content c (file_at cur p).
+Proof. intros. unfold read_tag, read_content, file_at. destruct (lookup cur p) as [[[b|vs]|cs]|]; reflexivity. Qed.
+
+(* read before the first mutation, from a startable tree: the tag values are those of the copied file, else of the
+   file a #static shields, else none — in particular the same from two startable trees with the same #static content *)
+Lemma early_tag_startable : forall c h s p,
+  startable c h s -> inside c h p = true ->
+  early_tag c h (is_dir s (ns_dir c)) s p =
+  match copy_file h p with
+  | Some ct => read_content c (Some ct)
+  | None => if excepted h p then read_content c (file_at s p) else Some []
+  end.
+Proof.
+  intros c h s p S Hi. unfold early_tag. destruct (copy_file h p); auto. rewrite read_tag_content.
+  destruct S as [[Hd _]|[Hd Hc]]; rewrite Hd; cbn [andb].
+  - destruct (excepted h p); reflexivity.
+  - destruct (excepted h p) eqn:Ex; auto. rewrite (Hc p Hi Ex). reflexivity.
+Qed.
+
+Lemma tags_of_eq : forall v c h s1 s2,
+  startable c h s1 -> startable c h s2 ->
+  (forall p, excepted h p = true -> file_at s1 p = file_at s2 p) -> tags_of v c h s1 = tags_of v c h s2.
+Proof.
+  intros v c h s1 s2 S1 S2 Hst. unfold tags_of. destruct (v_tags_early v); auto.
+  assert (E : forall p, inside c h p = true ->
+              early_tag c h (is_dir s1 (ns_dir c)) s1 p = early_tag c h (is_dir s2 (ns_dir c)) s2 p).
+  { intros p Hp. rewrite !early_tag_startable; auto. destruct (copy_file h p); auto.
+    destruct (excepted h p) eqn:Ex; auto. rewrite (Hst p Ex). reflexivity. }
+  rewrite (E _ (load_inside c h)), (E _ (tick_inside c h)). reflexivity.
+Qed.
+
 (* Two builds of the same project from trees that agree on every file inside the deleted folders perform the same
    file operations. *)
-Lemma write_phase_congr : forall c h o m1 m2 w1 w2 s1' s2',
+Lemma write_phase_congr : forall v c h o tg m1 m2 w1 w2 s1' s2',
   (forall p, inside c h p = true -> file_at m1 p = file_at m2 p) ->
-  write_phase c h o m1 = (w1, RDone) -> exec w1 m1 = Some s1' ->
-  write_phase c h o m2 = (w2, RDone) -> exec w2 m2 = Some s2' ->
+  write_phase v c h o tg m1 = (w1, RDone) -> exec w1 m1 = Some s1' ->
+  write_phase v c h o tg m2 = (w2, RDone) -> exec w2 m2 = Some s2' ->
   fops w1 = fops w2.
 Proof.
-  intros c h o m1 m2 w1 w2 s1' s2' Hag W1 E1 W2 E2.
+  intros v c h o tg m1 m2 w1 w2 s1' s2' Hag W1 E1 W2 E2.
   rewrite write_phase_unfold in W1, W2. cbv zeta in W1, W2.
-  set (pre1 := pre_ops c h m1) in *. set (pre2 := pre_ops c h m2) in *.
+  set (pre1 := pre_ops (v_cert_atomic v) c h m1) in *. set (pre2 := pre_ops (v_cert_atomic v) c h m2) in *.
   assert (Hpre : fops pre1 = fops pre2) by apply pre_ops_fops.
   (* the states in which the tag files are read *)
   assert (X1 : exists k1, exec pre1 m1 = Some k1).
-  { destruct (read_tag c (run_ops pre1 m1) (load_path c)); [destruct (read_tag c (run_ops pre1 m1) (tick_path c))|];
-      inversion W1; subst w1. apply exec_app_inv in E1 as (k & Hk & _). eauto. }
+  { destruct (tags_at c tg (run_ops pre1 m1)) as [[lv|] [tv|]]; inversion W1; subst w1.
+    apply exec_app_inv in E1 as (k & Hk & _). eauto. }
   assert (X2 : exists k2, exec pre2 m2 = Some k2).
-  { destruct (read_tag c (run_ops pre2 m2) (load_path c)); [destruct (read_tag c (run_ops pre2 m2) (tick_path c))|];
-      inversion W2; subst w2. apply exec_app_inv in E2 as (k & Hk & _). eauto. }
+  { destruct (tags_at c tg (run_ops pre2 m2)) as [[lv|] [tv|]]; inversion W2; subst w2.
+    apply exec_app_inv in E2 as (k & Hk & _). eauto. }
   destruct X1 as [k1 K1]. destruct X2 as [k2 K2].
   rewrite (run_ops_exec _ _ _ K1) in W1. rewrite (run_ops_exec _ _ _ K2) in W2.
   assert (Hf : forall p, inside c h p = true -> file_at k1 p = file_at k2 p).
   { intros p Hp. rewrite (file_at_exec _ _ _ p K1), (file_at_exec _ _ _ p K2), (Hag p Hp).
     apply fsem_fops_eq. exact Hpre. }
-  rewrite !read_tag_file_at in W1, W2.
-  rewrite (Hf _ (load_inside c h)), (Hf _ (tick_inside c h)) in W1.
-  destruct (match file_at k2 (load_path c) with
-            | Some (Tag vs) => Some (filter (fun v => negb (own_entry c v)) vs)
-            | Some (Raw _) => None | None => Some [] end) as [lv|]; [|discriminate].
-  destruct (match file_at k2 (tick_path c) with
-            | Some (Tag vs) => Some (filter (fun v => negb (own_entry c v)) vs)
-            | Some (Raw _) => None | None => Some [] end) as [tv|]; [|discriminate].
+  assert (Ht : tags_at c tg k1 = tags_at c tg k2).
+  { unfold tags_at. destruct tg as [[lv tv]|]; auto.
+    rewrite !read_tag_content, (Hf _ (load_inside c h)), (Hf _ (tick_inside c h)). reflexivity. }
+  rewrite Ht in W1. destruct (tags_at c tg k2) as [[lv|] [tv|]]; try discriminate.
   inversion W1; inversion W2; subst. rewrite !fops_app. f_equal; auto. apply post_ops_fops.
 Qed.
 
 (* C11, first sentence.  Building the same project from two startable trees with the same #static content gives
    the same file at every path inside the deleted folders and at every path the build writes.  (With the second
    tree empty: "exactly what compiling into an empty directory produces".) *)
-Theorem fresh : forall c h o s1 s2 pl1 pl2 s1' s2',
+Theorem fresh : forall v c h o s1 s2 pl1 pl2 s1' s2',
+  sound v ->
   startable c h s1 -> startable c h s2 ->
   (forall p, excepted h p = true -> file_at s1 p = file_at s2 p) ->
-  run fixed c h (Success o) None s1 = (pl1, RDone) -> exec pl1 s1 = Some s1' ->
-  run fixed c h (Success o) None s2 = (pl2, RDone) -> exec pl2 s2 = Some s2' ->
+  run v c h (Success o) None s1 = (pl1, RDone) -> exec pl1 s1 = Some s1' ->
+  run v c h (Success o) None s2 = (pl2, RDone) -> exec pl2 s2 = Some s2' ->
   forall p, inside c h p = true \/ In p (map op_path (filter creates pl1)) ->
   file_at s1' p = file_at s2' p.
 Proof.
-  intros c h o s1 s2 pl1 pl2 s1' s2' S1 S2 Hst R1 E1 R2 E2 p Hp.
-  rewrite (run_startable _ _ _ _ S1) in R1. rewrite (run_startable _ _ _ _ S2) in R2.
+  intros v c h o s1 s2 pl1 pl2 s1' s2' Hv S1 S2 Hst R1 E1 R2 E2 p Hp.
+  rewrite (run_startable _ _ _ _ _ Hv S1) in R1. rewrite (run_startable _ _ _ _ _ Hv S2) in R2.
+  rewrite (tags_of_eq v c h s1 s2 S1 S2 Hst) in R1.
+  destruct (tags_of v c h s2) as [tg|]; [|discriminate].
   inversion R1 as [[P1 Q1]]. inversion R2 as [[P2 Q2]]. clear R1 R2.
-  set (d1 := dops_of c h s1) in *. set (d2 := dops_of c h s2) in *.
+  set (d1 := dops_of v c h s1) in *. set (d2 := dops_of v c h s2) in *.
   rewrite <- P1 in E1. rewrite <- P2 in E2.
   apply exec_app_inv in E1 as (m1 & D1 & E1). apply exec_app_inv in E2 as (m2 & D2 & E2).
   rewrite (run_ops_exec _ _ _ D1) in *. rewrite (run_ops_exec _ _ _ D2) in *.
-  destruct (after_deletion _ _ _ _ S1 D1) as [A1 B1]. destruct (after_deletion _ _ _ _ S2 D2) as [A2 B2].
+  destruct (after_deletion _ _ _ _ _ Hv S1 D1) as [A1 B1]. destruct (after_deletion _ _ _ _ _ Hv S2 D2) as [A2 B2].
   assert (Hag : forall q, inside c h q = true -> file_at m1 q = file_at m2 q).
   { intros q Hq. destruct (excepted h q) eqn:Ex.
     - rewrite B1, B2; auto.
     - rewrite A1, A2; auto. }
-  destruct (write_phase c h o m1) as [w1 r1] eqn:W1. destruct (write_phase c h o m2) as [w2 r2] eqn:W2.
+  destruct (write_phase v c h o tg m1) as [w1 r1] eqn:W1. destruct (write_phase v c h o tg m2) as [w2 r2] eqn:W2.
   simpl in *. subst r1 r2.
-  pose proof (write_phase_congr _ _ _ _ _ _ _ _ _ Hag W1 E1 W2 E2) as Hw.
+  pose proof (write_phase_congr _ _ _ _ _ _ _ _ _ _ _ Hag W1 E1 W2 E2) as Hw.
   rewrite (file_at_exec _ _ _ p E1), (file_at_exec _ _ _ p E2).
   rewrite (fsem_fops_eq p w1 w2 _ Hw).
   destruct Hp as [Hp|Hp].
@@ -352,10 +416,16 @@ Proof.
       rewrite Hw in Hfx. unfold fops in Hfx. apply filter_In in Hfx as [Hfx Hfo]. eauto.
 Qed.
 
-(* ------------------------------------------------------------------ the write phase deletes nothing *)
-Definition nodelete (o : op) : bool := is_mkdir o || creates o.
+(* ------------------------------------------------------------------ the write phase removes no directory *)
+(* [additive]: creates a directory or writes a file;  [nodelete]: does not remove a directory (the only unlink of the
+   write phase is the one of jmc.txt.tmp, second half of the rename) *)
+Definition additive (o : op) : bool := is_mkdir o || creates o.
+Definition nodelete (o : op) : bool := match o with Rmdir _ => false | _ => true end.
 
-Lemma copy_ops_nodelete : forall t cur dst o, In o (copy_ops cur dst t) -> nodelete o = true.
+Lemma additive_nodelete : forall o, additive o = true -> nodelete o = true.
+Proof. intros [p|p|p c|p|p|p c] H; try reflexivity. discriminate. Qed.
+
+Lemma copy_ops_additive : forall t cur dst o, In o (copy_ops cur dst t) -> additive o = true.
 Proof.
   induction t as [c|cs IH] using tree_ind_in; intros cur dst o H; simpl in H.
   - destruct H as [<-|[<-|[]]]; reflexivity.
@@ -364,48 +434,79 @@ Proof.
     + apply in_flat_map in H as (e & He & Ho). eapply IH; eauto.
 Qed.
 
-Lemma copy_items_nodelete : forall items cur o, In o (copy_items cur items) -> nodelete o = true.
+Lemma copy_items_additive : forall items cur o, In o (copy_items cur items) -> additive o = true.
 Proof.
   induction items as [|[x t] r IH]; intros cur o H; simpl in H; [contradiction|].
-  apply in_app_or in H as [H|H]; [eapply copy_ops_nodelete; eauto | eapply IH; eauto].
+  apply in_app_or in H as [H|H]; [eapply copy_ops_additive; eauto | eapply IH; eauto].
 Qed.
 
-Lemma write_file_nodelete : forall cur p ct o, In o (write_file cur p ct) -> nodelete o = true.
+Lemma write_file_additive : forall cur p ct o, In o (write_file cur p ct) -> additive o = true.
 Proof.
   intros cur p ct o H. unfold write_file in H. apply in_app_or in H as [H|H].
-  - apply mkdir_p_shape in H as (H1 & _). unfold nodelete. rewrite H1. reflexivity.
+  - apply mkdir_p_shape in H as (H1 & _). unfold additive. rewrite H1. reflexivity.
   - destruct H as [<-|[<-|[]]]; reflexivity.
 Qed.
 
-Lemma write_files_nodelete : forall l cur o, In o (write_files cur l) -> nodelete o = true.
+Lemma write_files_additive : forall l cur o, In o (write_files cur l) -> additive o = true.
 Proof.
-  intros l cur o H. apply write_files_shape in H as (p & s & cur' & _ & Ho). eapply write_file_nodelete; eauto.
+  intros l cur o H. apply write_files_shape in H as (p & s & cur' & _ & Ho). eapply write_file_additive; eauto.
 Qed.
 
-Lemma pre_ops_nodelete : forall c h cur o, In o (pre_ops c h cur) -> nodelete o = true.
+Lemma mkdir_p_additive : forall cur q o, In o (mkdir_p cur q) -> additive o = true.
+Proof. intros cur q o H. apply mkdir_p_shape in H as (H1 & _). unfold additive. rewrite H1. reflexivity. Qed.
+
+Lemma make_cert_nodelete : forall a c cur o, In o (make_cert a c cur) -> nodelete o = true.
 Proof.
-  intros c h cur o H. unfold pre_ops in H. apply in_app_or in H as [H|H]; [eapply write_file_nodelete; eauto|].
-  apply in_app_or in H as [H|H].
-  - unfold copy_phase in H. destruct (h_copy h); [|contradiction]. eapply copy_items_nodelete; eauto.
-  - apply mkdir_p_shape in H as (H1 & _). unfold nodelete. rewrite H1. reflexivity.
+  intros a c cur o H. unfold make_cert in H. apply in_app_or in H as [H|H].
+  - apply additive_nodelete. eapply mkdir_p_additive; eauto.
+  - destruct a; simpl in H; repeat (destruct H as [<-|H]; [reflexivity|]); contradiction.
 Qed.
 
-Lemma post_ops_nodelete : forall c h o cur lv tv x, In x (post_ops c h o cur lv tv) -> nodelete x = true.
+(* after make_cert: #copy and the tag folder *)
+Definition mid_ops (a : bool) (c : cfg) (h : hdr) (cur : fs) : list op :=
+  let cur1 := run_ops (make_cert a c cur) cur in
+  let ops2 := copy_phase h cur1 in
+  ops2 ++ mkdir_p (run_ops ops2 cur1) (tags_dir c).
+
+Lemma pre_ops_split : forall a c h cur, pre_ops a c h cur = make_cert a c cur ++ mid_ops a c h cur.
+Proof. intros. reflexivity. Qed.
+
+Lemma mid_ops_additive : forall a c h cur o, In o (mid_ops a c h cur) -> additive o = true.
+Proof.
+  intros a c h cur o H. unfold mid_ops in H. apply in_app_or in H as [H|H].
+  - unfold copy_phase in H. destruct (h_copy h); [|contradiction]. eapply copy_items_additive; eauto.
+  - eapply mkdir_p_additive; eauto.
+Qed.
+
+Lemma post_ops_additive : forall c h o cur lv tv x, In x (post_ops c h o cur lv tv) -> additive x = true.
 Proof.
   intros c h o cur lv tv x H. unfold post_ops in H. apply in_app_or in H as [H|H].
   - unfold tag_ops in H. apply in_app_or in H as [H|H].
     + destruct H as [<-|[<-|[]]]; reflexivity.
     + destruct (o_tick o); [|contradiction]. destruct H as [<-|[<-|[]]]; reflexivity.
-  - apply in_app_or in H as [H|H]; [eapply write_files_nodelete; eauto|].
+  - apply in_app_or in H as [H|H]; [eapply write_files_additive; eauto|].
     unfold meta_ops in H. destruct (h_nometa h); [contradiction|]. destruct H as [<-|[<-|[]]]; reflexivity.
 Qed.
 
-Lemma write_phase_nodelete : forall c h o cur x, In x (fst (write_phase c h o cur)) -> nodelete x = true.
+(* the write phase = make_cert, then only additive mutations *)
+Lemma write_phase_split : forall v c h o tg m,
+  exists rest, fst (write_phase v c h o tg m) = make_cert (v_cert_atomic v) c m ++ rest /\
+               forall x, In x rest -> additive x = true.
 Proof.
-  intros c h o cur x H. rewrite write_phase_unfold in H. cbv zeta in H.
-  destruct (read_tag c _ (load_path c)); [destruct (read_tag c _ (tick_path c))|]; cbn [fst] in H;
-    try (eapply pre_ops_nodelete; eauto; fail).
-  apply in_app_or in H as [H|H]; [eapply pre_ops_nodelete | eapply post_ops_nodelete]; eauto.
+  intros v c h o tg m. rewrite write_phase_unfold. cbv zeta. rewrite pre_ops_split.
+  destruct (tags_at c tg _) as [[lv|] [tv|]]; cbn [fst].
+  - rewrite <- app_assoc. eexists. split; [reflexivity|]. intros x Hx. apply in_app_or in Hx as [Hx|Hx].
+    + eapply mid_ops_additive; eauto.
+    + eapply post_ops_additive; eauto.
+  - eexists. split; [reflexivity|]. intros x Hx. eapply mid_ops_additive; eauto.
+  - eexists. split; [reflexivity|]. intros x Hx. eapply mid_ops_additive; eauto.
+  - eexists. split; [reflexivity|]. intros x Hx. eapply mid_ops_additive; eauto.
+Qed.
+
+Lemma write_phase_nodelete : forall v c h o tg cur x, In x (fst (write_phase v c h o tg cur)) -> nodelete x = true.
+Proof.
+  intros v c h o tg cur x H. destruct (write_phase_split v c h o tg cur) as (rest & Hr & Hrest). rewrite Hr in H.
+  apply in_app_or in H as [H|H]; [eapply make_cert_nodelete; eauto | apply additive_nodelete; auto].
 Qed.
 
 Lemma nodelete_keeps_dir : forall ops t t' p,
@@ -423,8 +524,8 @@ Proof.
     eapply apply_frame; eauto.
 Qed.
 
-Lemma nodelete_keeps_file : forall ops t t' p,
-  (forall x, In x ops -> nodelete x = true) -> exec ops t = Some t' -> is_file t p = true -> is_file t' p = true.
+Lemma additive_keeps_file : forall ops t t' p,
+  (forall x, In x ops -> additive x = true) -> exec ops t = Some t' -> is_file t p = true -> is_file t' p = true.
 Proof.
   induction ops as [|o r IH]; intros t t' p Hn He Hd; simpl in He; [inversion He; subst; auto|].
   destruct (apply o t) as [m|] eqn:Ea; [|discriminate].
@@ -444,60 +545,64 @@ Proof.
   destruct (lookup t p) as [[c|cs]|]; auto; simpl in H; discriminate.
 Qed.
 
-(* after make_cert the certificate is a file *)
-Lemma make_cert_file : forall c cur m, exec (make_cert c cur) cur = Some m -> is_file m (cert_path c) = true.
+Lemma cert_tmp_neq : forall c, cert_path c <> cert_tmp c.
+Proof. intros c H. unfold cert_path, cert_tmp in H. inversion H. Qed.
+
+(* after make_cert (either way of writing it) the certificate is a file holding the complete text *)
+Lemma make_cert_file : forall a c cur m,
+  exec (make_cert a c cur) cur = Some m -> file_at m (cert_path c) = Some (Raw (c_cert c)).
 Proof.
-  intros c cur m H. unfold make_cert, write_file in H. apply exec_app_inv in H as (m0 & _ & H).
-  cbn [exec] in H. destruct (apply (Create (cert_path c)) m0) as [m1|]; [|discriminate].
-  destruct (apply (Write (cert_path c) (Raw (c_cert c))) m1) as [m2|] eqn:Ea; [|discriminate].
-  inversion H; subst m2. destruct (apply_self _ _ _ Ea) as (v & Hf & Hv). cbn [op_fun op_path] in Hf, Hv.
-  unfold is_file. rewrite Hv. destruct (lookup m1 (cert_path c)) as [[c0|cs]|]; cbn [f_write] in Hf; inversion Hf. reflexivity.
+  intros a c cur m H. unfold make_cert in H. apply exec_app_inv in H as (m0 & _ & H).
+  rewrite (file_at_exec _ _ _ _ H). pose proof (cert_tmp_neq c) as Hne.
+  assert (E1 : path_eqb (cert_tmp c) (cert_path c) = false) by (apply path_eqb_neq; congruence).
+  destruct a; unfold cert_tail, rename_ops, fsem; cbn [app fold_left]; unfold fstep; cbn [op_path];
+    rewrite ?E1, ?path_eqb_refl; reflexivity.
 Qed.
 
-Lemma pre_ops_split : forall c h cur, exists rest, pre_ops c h cur = make_cert c cur ++ rest.
-Proof. intros. unfold pre_ops. eexists. reflexivity. Qed.
+Lemma file_at_is_file : forall t p c, file_at t p = Some c -> is_file t p = true.
+Proof. intros t p c H. unfold file_at in H. unfold is_file. destruct (lookup t p) as [[c0|cs]|]; congruence. Qed.
 
 (* any executed write phase (complete, or stopped by an unparsable tag file) leaves a built tree *)
-Lemma write_phase_built : forall c h o m w r s',
-  write_phase c h o m = (w, r) -> exec w m = Some s' -> built c s'.
+Lemma write_phase_built : forall v c h o tg m w r s',
+  write_phase v c h o tg m = (w, r) -> exec w m = Some s' -> built c s'.
 Proof.
-  intros c h o m w r s' W E.
-  assert (Hn : forall x, In x w -> nodelete x = true).
-  { intros x Hx. apply (write_phase_nodelete c h o m). rewrite W. exact Hx. }
-  assert (Hsplit : exists rest, w = make_cert c m ++ rest).
-  { rewrite write_phase_unfold in W. cbv zeta in W. destruct (pre_ops_split c h m) as [rest Hr].
-    destruct (read_tag c _ (load_path c)); [destruct (read_tag c _ (tick_path c))|]; inversion W; subst;
-      rewrite Hr; try rewrite <- app_assoc; eauto. }
-  destruct Hsplit as [rest ->]. apply exec_app_inv in E as (k & K & E).
+  intros v c h o tg m w r s' W E.
+  destruct (write_phase_split v c h o tg m) as (rest & Hr & Hrest). rewrite W in Hr. cbn [fst] in Hr. subst w.
+  apply exec_app_inv in E as (k & K & E).
   assert (Hf : is_file s' (cert_path c) = true).
-  { eapply nodelete_keeps_file; [|exact E|eapply make_cert_file; eauto].
-    intros x Hx. apply Hn. apply in_or_app. auto. }
+  { eapply additive_keeps_file; [exact Hrest|exact E|]. eapply file_at_is_file. eapply make_cert_file; eauto. }
   split; auto. apply (file_parent_dir s' (ns_dir c) "jmc.txt"). exact Hf.
 Qed.
 
-Lemma done_built : forall c h o s pl r s',
-  startable c h s -> run fixed c h (Success o) None s = (pl, r) -> exec pl s = Some s' -> built c s'.
+Lemma done_built : forall v c h o s pl r s',
+  sound v -> startable c h s -> run v c h (Success o) None s = (pl, r) -> exec pl s = Some s' ->
+  r <> RTagErr \/ v_tags_early v = false -> built c s'.
 Proof.
-  intros c h o s pl r s' S R E. rewrite (run_startable _ _ _ _ S) in R. inversion R as [[P Q]]. subst pl.
-  apply exec_app_inv in E as (m & D & E). rewrite (run_ops_exec _ _ _ D) in *.
-  destruct (write_phase c h o m) as [w r'] eqn:W. simpl in *. eapply write_phase_built; eauto.
+  intros v c h o s pl r s' Hv S R E Hr. rewrite (run_startable _ _ _ _ _ Hv S) in R.
+  destruct (tags_of v c h s) as [tg|] eqn:Et.
+  - inversion R as [[P Q]]. subst pl.
+    apply exec_app_inv in E as (m & D & E). rewrite (run_ops_exec _ _ _ D) in *.
+    destruct (write_phase v c h o tg m) as [w r'] eqn:W. simpl in *. eapply write_phase_built; eauto.
+  - exfalso. inversion R; subst. destruct Hr as [Hr|Hr]; [congruence|].
+    unfold tags_of in Et. rewrite Hr in Et. discriminate.
 Qed.
 
 (* C11: compiling twice changes nothing *)
-Theorem twice : forall c h o s pl s' pl' s'',
+Theorem twice : forall v c h o s pl s' pl' s'',
+  sound v ->
   startable c h s -> static_safe c h o = true ->
-  run fixed c h (Success o) None s = (pl, RDone) -> exec pl s = Some s' ->
-  run fixed c h (Success o) None s' = (pl', RDone) -> exec pl' s' = Some s'' ->
+  run v c h (Success o) None s = (pl, RDone) -> exec pl s = Some s' ->
+  run v c h (Success o) None s' = (pl', RDone) -> exec pl' s' = Some s'' ->
   forall p, inside c h p = true \/ In p (map op_path (filter creates pl')) ->
   file_at s'' p = file_at s' p.
 Proof.
-  intros c h o s pl s' pl' s'' S Hs R E R' E' p Hp.
-  assert (B : built c s') by (eapply done_built; eauto).
-  eapply (fresh c h o s' s pl' pl s'' s'); eauto.
+  intros v c h o s pl s' pl' s'' Hv S Hs R E R' E' p Hp.
+  assert (B : built c s') by (eapply done_built; eauto; left; discriminate).
+  eapply (fresh v c h o s' s pl' pl s'' s'); eauto.
   - left. exact B.
-  - intros q Hq. rewrite !file_at_node. erewrite (statics_untouched c h (Success o) None s pl s' q); eauto.
+  - intros q Hq. rewrite !file_at_node. erewrite (statics_untouched v c h (Success o) None s pl s' q); eauto.
     + intros o0 Ho0. inversion Ho0; subst. exact Hs.
-    + replace pl with (plan fixed c h (Success o) None s) by (unfold plan; rewrite R; reflexivity).
+    + replace pl with (plan v c h (Success o) None s) by (unfold plan; rewrite R; reflexivity).
       apply crash_trace_full.
 Qed.
 
@@ -583,12 +688,12 @@ Proof.
   apply String.eqb_eq in Hp. contradiction.
 Qed.
 
-Lemma dops_structure : forall c h s,
-  c_ns c <> "minecraft" ->
-  exists a z, del_phase h s (del_list fixed c h) = a ++ z /\
+Lemma dops_structure : forall v c h s,
+  sound v -> c_ns c <> "minecraft" ->
+  exists a z, del_phase h s (del_list v c h) = a ++ z /\
               (forall o, In o a -> op_path o <> ns_dir c) /\ (z = [] \/ z = [Rmdir (ns_dir c)]).
 Proof.
-  intros c h s Hmc. unfold del_list. cbn [v_ns_last v_mc_static fixed].
+  intros v c h s (_ & Hms & Hnl) Hmc. unfold del_list. rewrite Hnl, Hms.
   set (ov := map (fun o => (ov_dir o, true)) (filter (fun o => negb (String.eqb o (c_ns c))) (h_overrides h))).
   replace (ov ++ [(mc_dir, true); (ns_dir c, true)]) with ((ov ++ [(mc_dir, true)]) ++ [(ns_dir c, true)])
     by (rewrite <- app_assoc; reflexivity).
@@ -614,12 +719,12 @@ Proof.
 Qed.
 
 (* while folders are being deleted the namespace folder is still there — unless the deletion is complete *)
-Lemma del_region : forall c h s j k,
-  c_ns c <> "minecraft" -> is_dir s (ns_dir c) = true ->
-  exec (firstn j (del_phase h s (del_list fixed c h))) s = Some k ->
-  is_dir k (ns_dir c) = true \/ firstn j (del_phase h s (del_list fixed c h)) = del_phase h s (del_list fixed c h).
+Lemma del_region : forall v c h s j k,
+  sound v -> c_ns c <> "minecraft" -> is_dir s (ns_dir c) = true ->
+  exec (firstn j (del_phase h s (del_list v c h))) s = Some k ->
+  is_dir k (ns_dir c) = true \/ firstn j (del_phase h s (del_list v c h)) = del_phase h s (del_list v c h).
 Proof.
-  intros c h s j k Hmc Hd He. destruct (dops_structure c h s Hmc) as (a & z & Hs & Ha & Hz).
+  intros v c h s j k Hv Hmc Hd He. destruct (dops_structure v c h s Hv Hmc) as (a & z & Hs & Ha & Hz).
   rewrite Hs in *.
   assert (Hkeep : forall j', exec (firstn j' a) s = Some k -> is_dir k (ns_dir c) = true).
   { intros j' He'. apply is_dir_node. apply is_dir_node in Hd. rewrite <- Hd.
@@ -664,23 +769,18 @@ Proof.
       apply IH. intros; apply Ho; simpl; auto.
 Qed.
 
-Lemma write_region : forall c h o m ops k,
-  ready c h m -> crash_trace (fst (write_phase c h o m)) ops -> exec ops m = Some k -> ready c h k.
+Lemma write_region : forall v c h o tg m ops k,
+  ready c h m -> crash_trace (fst (write_phase v c h o tg m)) ops -> exec ops m = Some k -> ready c h k.
 Proof.
-  intros c h o m ops k [Hd|Hc] Hct He.
+  intros v c h o tg m ops k [Hd|Hc] Hct He.
   - left. eapply nodelete_keeps_dir; eauto. intros x Hx.
     eapply crash_trace_nodelete; eauto. intros y Hy. eapply write_phase_nodelete; eauto.
   - destruct Hc as [Hd Hc0]. pose proof (conj Hd Hc0 : clean c h m) as Hc.
-    assert (Hsplit : exists tail, fst (write_phase c h o m) = mkdir_p m (ns_dir c) ++ tail /\
+    assert (Hsplit : exists tail, fst (write_phase v c h o tg m) = mkdir_p m (ns_dir c) ++ tail /\
                                   forall x, In x tail -> nodelete x = true).
-    { assert (Hs0 : exists rest, fst (write_phase c h o m) = make_cert c m ++ rest).
-      { rewrite write_phase_unfold. cbv zeta. destruct (pre_ops_split c h m) as [rest Hr].
-        destruct (read_tag c _ (load_path c)); [destruct (read_tag c _ (tick_path c))|]; cbn [fst];
-          rewrite Hr; try rewrite <- app_assoc; eauto. }
-      destruct Hs0 as [rest Hr]. unfold make_cert, write_file in Hr.
-      change (removelast (cert_path c)) with (ns_dir c) in Hr. rewrite <- app_assoc in Hr.
-      eexists. split; [exact Hr|]. intros x Hx. apply (write_phase_nodelete c h o m). rewrite Hr.
-      apply in_or_app. auto. }
+    { destruct (write_phase_split v c h o tg m) as (rest & Hr & Hrest). unfold make_cert in Hr.
+      rewrite <- app_assoc in Hr. eexists. split; [exact Hr|]. intros x Hx.
+      apply (write_phase_nodelete v c h o tg m). rewrite Hr. apply in_or_app. auto. }
     destruct Hsplit as (tail & Hw & Htail). rewrite Hw in Hct.
     destruct (mkdir_p_ns c m Hd) as (pre0 & Hmk & Hpre0). rewrite Hmk, <- app_assoc in Hct.
     apply crash_trace_app in Hct as [Hct|(ops2 & -> & Hct)].
@@ -697,65 +797,90 @@ Proof.
         left. cbn [firstn exec] in He. destruct (apply (Mkdir (ns_dir c)) k0) as [k1|] eqn:Ea; [|discriminate].
         eapply nodelete_keeps_dir; [|exact He|].
         -- intros x Hx. apply Htail. eapply firstn_in; eauto.
-        -- destruct (apply_self _ _ _ Ea) as (v & Hf & Hv). cbn [op_fun op_path] in Hf, Hv.
+        -- destruct (apply_self _ _ _ Ea) as (v0 & Hf & Hv). cbn [op_fun op_path] in Hf, Hv.
            unfold is_dir. rewrite Hv. destruct (lookup k0 (ns_dir c)); cbn [f_mkdir] in Hf; inversion Hf. reflexivity.
       * destruct j as [|j]; [simpl in Hn; discriminate|].
         left. cbn [firstn app exec] in He. destruct (apply (Mkdir (ns_dir c)) k0) as [k1|] eqn:Ea; [|discriminate].
         eapply nodelete_keeps_dir; [|exact He|].
         -- intros x Hx. apply in_app_or in Hx as [Hx|[<-|[]]]; [|reflexivity]. apply Htail. eapply firstn_in; eauto.
-        -- destruct (apply_self _ _ _ Ea) as (v & Hf & Hv). cbn [op_fun op_path] in Hf, Hv.
+        -- destruct (apply_self _ _ _ Ea) as (v0 & Hf & Hv). cbn [op_fun op_path] in Hf, Hv.
            unfold is_dir. rewrite Hv. destruct (lookup k0 (ns_dir c)); cbn [f_mkdir] in Hf; inversion Hf. reflexivity.
 Qed.
 
 (* ------------------------------------------------------------------ every crash state is ready *)
-Lemma deletion_crash : forall c h s j k,
-  c_ns c <> "minecraft" -> built c s ->
-  exec (firstn j (del_phase h s (del_list fixed c h))) s = Some k -> ready c h k.
+Lemma deletion_crash : forall v c h s j k,
+  sound v -> c_ns c <> "minecraft" -> built c s ->
+  exec (firstn j (del_phase h s (del_list v c h))) s = Some k -> ready c h k.
 Proof.
-  intros c h s j k Hmc B He. destruct (del_region c h s j k Hmc (proj1 B) He) as [Hd|Hfull]; [left; exact Hd|].
+  intros v c h s j k Hv Hmc B He.
+  destruct (del_region v c h s j k Hv Hmc (proj1 B) He) as [Hd|Hfull]; [left; exact Hd|].
   rewrite Hfull in He. destruct (is_dir k (ns_dir c)) eqn:Ed; [left; exact Ed|]. right. split; auto.
   assert (S : startable c h s) by (left; exact B).
-  assert (He' : exec (dops_of c h s) s = Some k) by (unfold dops_of; rewrite (proj1 B); exact He).
-  apply (after_deletion c h s k S He').
+  assert (He' : exec (dops_of v c h s) s = Some k) by (unfold dops_of; rewrite (proj1 B); exact He).
+  apply (after_deletion v c h s k Hv S He').
 Qed.
 
-Lemma del_phase_all_nocreate : forall c h s y, In y (del_phase h s (del_list fixed c h)) -> creates y = false.
+Lemma del_phase_all_nocreate : forall v c h s y, In y (del_phase h s (del_list v c h)) -> creates y = false.
 Proof. intros. eapply del_phase_nocreate; eauto. Qed.
 
-Theorem crash_ready : forall c h out fault s ops k,
-  c_ns c <> "minecraft" -> ready c h s ->
-  crash_trace (plan fixed c h out fault s) ops -> exec ops s = Some k -> ready c h k.
+Lemma build_with_crash_ready : forall v c h o tg (isd : bool) fault s ops k,
+  sound v -> c_ns c <> "minecraft" -> ready c h s ->
+  (if isd then built c s else clean c h s) ->
+  crash_trace (fst (build_with v c h o tg isd fault s)) ops -> exec ops s = Some k -> ready c h k.
 Proof.
-  intros c h out fault s ops k Hmc R Hct He.
-  destruct out as [| | |o];
-    try (rewrite plan_fixed_nonsuccess in Hct by (intros; discriminate);
-         apply crash_trace_nil in Hct; subst ops; simpl in He; inversion He; subst; exact R).
-  unfold plan, run in Hct. destruct (is_dir s (ns_dir c)) eqn:Hd.
-  - destruct (is_file s (cert_path c)) eqn:Hf.
-    2:{ simpl in Hct. apply crash_trace_nil in Hct. subst ops. simpl in He. inversion He; subst. exact R. }
-    assert (B : built c s) by (split; auto).
-    unfold build in Hct. set (dops := del_phase h s (del_list fixed c h)) in *.
-    assert (Hfull : forall ops0, crash_trace (dops ++ fst (write_phase c h o (run_ops dops s))) ops0 ->
+  intros v c h o tg isd fault s ops k Hv Hmc R Hs Hct He. unfold build_with in Hct. destruct isd.
+  - rename Hs into B. set (dops := del_phase h s (del_list v c h)) in *.
+    assert (Hfull : forall ops0, crash_trace (dops ++ fst (write_phase v c h o tg (run_ops dops s))) ops0 ->
                                  exec ops0 s = Some k -> ready c h k).
     { intros ops0 Hc0 He0. apply crash_trace_app in Hc0 as [Hc0|(ops2 & -> & Hc0)].
       - apply crash_trace_nowrite in Hc0 as [j ->]; [|apply del_phase_all_nocreate].
         eapply deletion_crash; eauto.
       - apply exec_app_inv in He0 as (m & D & He0). rewrite (run_ops_exec _ _ _ D) in Hc0.
-        apply (write_region c h o m ops2 k); auto. apply (deletion_crash c h s (length dops) m); auto.
+        apply (write_region v c h o tg m ops2 k); auto. apply (deletion_crash v c h s (length dops) m); auto.
         rewrite firstn_all. exact D. }
     destruct fault as [P|].
     + destruct (cut P dops) as [pre hit] eqn:Ec. destruct hit.
       * simpl in Hct. destruct (cut_prefix P dops) as [n Hn]. rewrite Ec in Hn. simpl in Hn. subst pre.
         apply crash_trace_nowrite in Hct as [j ->].
         -- rewrite firstn_firstn in He. eapply deletion_crash; eauto.
-        -- intros y Hy. apply (del_phase_all_nocreate c h s). eapply firstn_in; eauto.
-      * destruct (write_phase c h o (run_ops dops s)) as [w r] eqn:W. simpl in Hct, Hfull. eauto.
-    + destruct (write_phase c h o (run_ops dops s)) as [w r] eqn:W. simpl in Hct, Hfull. eauto.
+        -- intros y Hy. apply (del_phase_all_nocreate v c h s). eapply firstn_in; eauto.
+      * destruct (write_phase v c h o tg (run_ops dops s)) as [w r] eqn:W. simpl in Hct, Hfull. eauto.
+    + destruct (write_phase v c h o tg (run_ops dops s)) as [w r] eqn:W. simpl in Hct, Hfull. eauto.
+  - simpl in Hct.
+    assert (Hw : crash_trace (fst (write_phase v c h o tg s)) ops).
+    { destruct fault; simpl in Hct; destruct (write_phase v c h o tg s) as [w r]; exact Hct. }
+    apply (write_region v c h o tg s ops k); auto.
+Qed.
+
+Lemma build_crash_ready : forall v c h o (isd : bool) fault s ops k,
+  sound v -> c_ns c <> "minecraft" -> ready c h s ->
+  (if isd then built c s else clean c h s) ->
+  crash_trace (fst (build v c h o isd fault s)) ops -> exec ops s = Some k -> ready c h k.
+Proof.
+  intros v c h o isd fault s ops k Hv Hmc R Hs Hct He. unfold build in Hct. destruct (v_tags_early v).
+  - destruct (early_tag c h isd s (load_path c)) as [lv|]; [destruct (early_tag c h isd s (tick_path c)) as [tv|]|];
+      try (apply crash_trace_nil in Hct; subst ops; simpl in He; inversion He; subst; exact R).
+    eapply build_with_crash_ready; eauto.
+  - eapply build_with_crash_ready; eauto.
+Qed.
+
+Theorem crash_ready : forall v c h out fault s ops k,
+  sound v -> c_ns c <> "minecraft" -> ready c h s ->
+  crash_trace (plan v c h out fault s) ops -> exec ops s = Some k -> ready c h k.
+Proof.
+  intros v c h out fault s ops k Hv Hmc R Hct He. pose proof Hv as (Hce & _ & _).
+  destruct out as [| | |o];
+    try (rewrite plan_fixed_nonsuccess in Hct by (auto; intros; discriminate);
+         apply crash_trace_nil in Hct; subst ops; simpl in He; inversion He; subst; exact R).
+  unfold plan, run in Hct. rewrite Hce in Hct. destruct (is_dir s (ns_dir c)) eqn:Hd.
+  - destruct (is_file s (cert_path c)) eqn:Hf.
+    2:{ simpl in Hct. apply crash_trace_nil in Hct. subst ops. simpl in He. inversion He; subst. exact R. }
+    assert (B : built c s) by (split; auto).
+    apply (build_crash_ready v c h o true fault s ops k); auto.
   - assert (C : clean c h s) by (destruct R as [R|R]; [congruence|exact R]).
-    simpl in Hct. unfold build in Hct. simpl in Hct.
-    assert (Hw : crash_trace (fst (write_phase c h o s)) ops).
-    { destruct fault; simpl in Hct; destruct (write_phase c h o s) as [w r]; exact Hct. }
-    apply (write_region c h o s ops k); auto.
+    cbn [run_ops app] in Hct.
+    apply (build_crash_ready v c h o false fault s ops k); auto.
+    destruct (build v c h o false fault s) as [w r]. exact Hct.
 Qed.
 
 (* a ready tree is either refused by the next build, or startable *)
@@ -772,50 +897,51 @@ Qed.
    is refused and changes nothing, or it produces — at every path inside the deleted folders and every path it
    writes — exactly the files a build from any other startable tree with the same #static content produces
    (in particular from a tree without any JMC-owned file); #static content is as it was. *)
-Theorem crash_recover : forall c h o fault s ops k,
+Theorem crash_recover : forall v c h o fault s ops k,
+  sound v ->
   c_ns c <> "minecraft" -> ready c h s -> static_safe c h o = true ->
-  crash_trace (plan fixed c h (Success o) fault s) ops -> exec ops s = Some k ->
+  crash_trace (plan v c h (Success o) fault s) ops -> exec ops s = Some k ->
   (forall p, excepted h p = true -> file_at k p = file_at s p) /\
-  ( run fixed c h (Success o) None k = ([], RRefused)
+  ( run v c h (Success o) None k = ([], RRefused)
     \/ forall pl k' s2 pl2 s2',
-         run fixed c h (Success o) None k = (pl, RDone) -> exec pl k = Some k' ->
+         run v c h (Success o) None k = (pl, RDone) -> exec pl k = Some k' ->
          startable c h s2 -> (forall p, excepted h p = true -> file_at s p = file_at s2 p) ->
-         run fixed c h (Success o) None s2 = (pl2, RDone) -> exec pl2 s2 = Some s2' ->
+         run v c h (Success o) None s2 = (pl2, RDone) -> exec pl2 s2 = Some s2' ->
          forall p, inside c h p = true \/ In p (map op_path (filter creates pl)) -> file_at k' p = file_at s2' p ).
 Proof.
-  intros c h o fault s ops k Hmc R Hs Hct He.
+  intros v c h o fault s ops k Hv Hmc R Hs Hct He.
   assert (Hst : forall p, excepted h p = true -> file_at k p = file_at s p).
-  { intros p Hp. rewrite !file_at_node. erewrite (statics_untouched c h (Success o) fault s ops k p); eauto.
+  { intros p Hp. rewrite !file_at_node. erewrite (statics_untouched v c h (Success o) fault s ops k p); eauto.
     intros o0 Ho0. inversion Ho0; subst; exact Hs. }
   split; auto.
-  pose proof (crash_ready _ _ _ _ _ _ _ Hmc R Hct He) as Rk.
+  pose proof (crash_ready _ _ _ _ _ _ _ _ Hv Hmc R Hct He) as Rk.
   destruct (ready_cases _ _ _ Rk) as [[Hd Hf]|Sk].
-  - left. rewrite (refusal fixed c h (Success o) None k Hd Hf). reflexivity.
+  - left. rewrite (refusal v c h (Success o) None k Hd Hf). reflexivity.
   - right. intros pl k' s2 pl2 s2' R1 E1 S2 Hag R2 E2 p Hp.
-    eapply (fresh c h o k s2); eauto. intros q Hq. rewrite Hst; auto.
+    eapply (fresh v c h o k s2); eauto. intros q Hq. rewrite Hst; auto.
 Qed.
 
 (* ------------------------------------------------------------------ histories *)
 (* any sequence of build attempts (any outcome, any injected failure, killed anywhere or not) of projects that
    share the namespace, the override namespaces and the #static folders *)
-Inductive hist (c : cfg) (h : hdr) : fs -> fs -> Prop :=
-| hist_refl : forall s, hist c h s s
+Inductive hist (v : variant) (c : cfg) (h : hdr) : fs -> fs -> Prop :=
+| hist_refl : forall s, hist v c h s s
 | hist_step : forall s m out fault copy nometa ops m',
-    hist c h s m ->
-    crash_trace (plan fixed c (mkHdr (h_statics h) (h_overrides h) copy nometa) out fault m) ops ->
-    exec ops m = Some m' -> hist c h s m'.
+    hist v c h s m ->
+    crash_trace (plan v c (mkHdr (h_statics h) (h_overrides h) copy nometa) out fault m) ops ->
+    exec ops m = Some m' -> hist v c h s m'.
 
 Lemma ready_hdr : forall c h copy nometa t,
   ready c (mkHdr (h_statics h) (h_overrides h) copy nometa) t <-> ready c h t.
 Proof. intros. unfold ready, clean, inside, in_folders, excepted. simpl. tauto. Qed.
 
-Theorem history_ready : forall c h s0 s,
-  c_ns c <> "minecraft" -> clean c h s0 -> hist c h s0 s -> ready c h s.
+Theorem history_ready : forall v c h s0 s,
+  sound v -> c_ns c <> "minecraft" -> clean c h s0 -> hist v c h s0 s -> ready c h s.
 Proof.
-  intros c h s0 s Hmc C H. induction H as [s|s m out fault copy nometa ops m' H IH Hct He].
+  intros v c h s0 s Hv Hmc C H. induction H as [s|s m out fault copy nometa ops m' H IH Hct He].
   - right. exact C.
   - specialize (IH C). apply (proj1 (ready_hdr c h copy nometa m')).
-    apply (crash_ready c _ out fault m ops m'); auto.
+    apply (crash_ready v c _ out fault m ops m'); auto.
 Qed.
 
 (* pinned behaviour: the crash window between the two rmtree calls.  Build A (with a tick function) completes,
@@ -874,14 +1000,214 @@ Proof.
   - intros p _ _. apply empty_file_at.
 Qed.
 
-Theorem fresh_empty : forall c h o s pl s' ple e',
+Theorem fresh_empty : forall v c h o s pl s' ple e',
+  sound v ->
   startable c h s -> (forall p, excepted h p = true -> file_at s p = None) ->
-  run fixed c h (Success o) None s = (pl, RDone) -> exec pl s = Some s' ->
-  run fixed c h (Success o) None empty_out = (ple, RDone) -> exec ple empty_out = Some e' ->
+  run v c h (Success o) None s = (pl, RDone) -> exec pl s = Some s' ->
+  run v c h (Success o) None empty_out = (ple, RDone) -> exec ple empty_out = Some e' ->
   forall p, inside c h p = true \/ In p (map op_path (filter creates pl)) -> file_at s' p = file_at e' p.
 Proof.
-  intros c h o s pl s' ple e' S Hst R E Re Ee p Hp.
-  eapply (fresh c h o s empty_out); eauto.
+  intros v c h o s pl s' ple e' Hv S Hst R E Re Ee p Hp.
+  eapply (fresh v c h o s empty_out); eauto.
   - right. apply empty_clean.
   - intros q Hq. rewrite empty_file_at. auto.
+Qed.
+
+(* ------------------------------------------------------------------ the certificate is never torn ([v_cert_atomic]) *)
+(* a mutation that writes jmc.txt is the second-to-last step of make_cert: the whole text, in one step *)
+Definition cert_safe (c : cfg) (x : op) : Prop :=
+  op_path x = cert_path c -> creates x = true -> x = Replace (cert_path c) (Raw (c_cert c)).
+
+Lemma nocreate_cert_safe : forall c x, creates x = false -> cert_safe c x.
+Proof. intros c x H _ H'. congruence. Qed.
+
+Lemma otherpath_cert_safe : forall c x, op_path x <> cert_path c -> cert_safe c x.
+Proof. intros c x H H' _. contradiction. Qed.
+
+Lemma mkdir_cert_safe : forall c x, is_mkdir x = true -> cert_safe c x.
+Proof. intros c x H. apply nocreate_cert_safe. destruct x; try discriminate; reflexivity. Qed.
+
+Lemma make_cert_cert_safe : forall c cur x, In x (make_cert true c cur) -> cert_safe c x.
+Proof.
+  intros c cur x H. unfold make_cert in H. apply in_app_or in H as [H|H].
+  - apply mkdir_cert_safe. apply mkdir_p_shape in H as (H1 & _). exact H1.
+  - pose proof (cert_tmp_neq c) as Hne. simpl in H. destruct H as [<-|[<-|[<-|[<-|[]]]]].
+    + apply otherpath_cert_safe. simpl. congruence.
+    + apply otherpath_cert_safe. simpl. congruence.
+    + intros _ _. reflexivity.
+    + apply nocreate_cert_safe. reflexivity.
+Qed.
+
+Lemma cert_exclusive_in : forall c h out p,
+  cert_exclusive c h out = true ->
+  In p (copy_paths h ++ match out with Success o => map fst (out_files c h o) | _ => [] end) -> p <> cert_path c.
+Proof.
+  intros c h out p H Hin. unfold cert_exclusive in H. rewrite forallb_forall in H. apply H in Hin.
+  apply negb_true_iff in Hin. apply path_eqb_neq in Hin. exact Hin.
+Qed.
+
+Lemma write_phase_cert_safe : forall v c h o tg cur x,
+  v_cert_atomic v = true -> cert_exclusive c h (Success o) = true ->
+  In x (fst (write_phase v c h o tg cur)) -> cert_safe c x.
+Proof.
+  intros v c h o tg cur x Ha Hx H. rewrite write_phase_unfold in H. cbv zeta in H. rewrite pre_ops_split, Ha in H.
+  assert (Hpre : In x (make_cert true c cur ++ mid_ops true c h cur) -> cert_safe c x).
+  { intro Hin. apply in_app_or in Hin as [Hin|Hin]; [eapply make_cert_cert_safe; eauto|].
+    unfold mid_ops in Hin. apply in_app_or in Hin as [Hin|Hin].
+    - apply otherpath_cert_safe. apply (cert_exclusive_in c h (Success o)); auto. apply in_or_app. left.
+      unfold copy_phase in Hin. unfold copy_paths. destruct (h_copy h) as [items|]; [|contradiction].
+      eapply copy_items_shape; eauto.
+    - apply mkdir_cert_safe. apply mkdir_p_shape in Hin as (H1 & _). exact H1. }
+  destruct (tags_at c tg _) as [[lv|] [tv|]]; cbn [fst] in H; auto.
+  apply in_app_or in H as [H|H]; auto.
+  unfold post_ops in H. apply in_app_or in H as [H|H].
+  - apply otherpath_cert_safe. unfold tag_ops in H. apply in_app_or in H as [H|H].
+    + destruct H as [<-|[<-|[]]]; simpl; discriminate.
+    + destruct (o_tick o); [|contradiction]. destruct H as [<-|[<-|[]]]; simpl; discriminate.
+  - apply in_app_or in H as [H|H].
+    + apply write_files_shape in H as (p & s & cur' & Hin & Ho).
+      destruct (out_files_in _ _ _ _ _ Hin) as [_ Hne].
+      apply write_file_shape in Ho as (_ & _ & [W|W]); auto.
+      * apply mkdir_cert_safe. exact W.
+      * apply otherpath_cert_safe. rewrite W. apply (cert_exclusive_in c h (Success o)); auto.
+        apply in_or_app. right. apply in_map_iff. exists (p, s). auto.
+    + apply otherpath_cert_safe. unfold meta_ops in H. destruct (h_nometa h); [contradiction|].
+      destruct H as [<-|[<-|[]]]; simpl; discriminate.
+Qed.
+
+Lemma build_with_cert_safe : forall v c h o tg isd fault cur x,
+  v_cert_atomic v = true -> cert_exclusive c h (Success o) = true ->
+  In x (fst (build_with v c h o tg isd fault cur)) -> cert_safe c x.
+Proof.
+  intros v c h o tg isd fault cur x Ha Hx H. unfold build_with in H.
+  set (dops := if isd then del_phase h cur (del_list v c h) else []) in *.
+  assert (Hd : In x dops -> cert_safe c x).
+  { intro Hin. apply nocreate_cert_safe. unfold dops in Hin. destruct isd; [|contradiction].
+    eapply del_phase_nocreate; eauto. }
+  destruct fault as [P|].
+  - destruct (cut P dops) as [pre hit] eqn:Ec. destruct hit; simpl in H.
+    + apply Hd. apply (cut_in P). rewrite Ec. exact H.
+    + destruct (write_phase v c h o tg (run_ops dops cur)) as [w r] eqn:Ew. simpl in H.
+      apply in_app_or in H as [H|H]; auto. eapply write_phase_cert_safe; eauto. rewrite Ew. exact H.
+  - destruct (write_phase v c h o tg (run_ops dops cur)) as [w r] eqn:Ew. simpl in H.
+    apply in_app_or in H as [H|H]; auto. eapply write_phase_cert_safe; eauto. rewrite Ew. exact H.
+Qed.
+
+Lemma build_cert_safe : forall v c h o isd fault cur x,
+  v_cert_atomic v = true -> cert_exclusive c h (Success o) = true ->
+  In x (fst (build v c h o isd fault cur)) -> cert_safe c x.
+Proof.
+  intros v c h o isd fault cur x Ha Hx H. unfold build in H. destruct (v_tags_early v).
+  - destruct (early_tag c h isd cur (load_path c)) as [lv|]; [destruct (early_tag c h isd cur (tick_path c)) as [tv|]|];
+      try contradiction. eapply build_with_cert_safe; eauto.
+  - eapply build_with_cert_safe; eauto.
+Qed.
+
+Lemma plan_cert_safe : forall v c h out fault s x,
+  v_cert_atomic v = true -> cert_exclusive c h out = true -> In x (plan v c h out fault s) -> cert_safe c x.
+Proof.
+  intros v c h out fault s x Ha Hx H. unfold plan, run in H. rewrite Ha in H.
+  assert (H0 : In x (if v_cert_early v then make_cert true c s else []) -> cert_safe c x).
+  { intro Hin. destruct (v_cert_early v); [|contradiction]. eapply make_cert_cert_safe; eauto. }
+  destruct out as [| | |o]; simpl in H; try contradiction.
+  - destruct (is_dir s (ns_dir c)); [destruct (is_file s (cert_path c)); contradiction|]. auto.
+  - destruct (is_dir s (ns_dir c)); [destruct (is_file s (cert_path c)); contradiction|]. auto.
+  - destruct (is_dir s (ns_dir c)).
+    + destruct (is_file s (cert_path c)); [|contradiction]. eapply build_cert_safe; eauto.
+    + destruct (build v c h o false fault _) as [ops r] eqn:Eb. simpl in H.
+      apply in_app_or in H as [H|H]; auto. eapply build_cert_safe; eauto. rewrite Eb. exact H.
+Qed.
+
+Lemma fsem_cert_safe : forall c ops i,
+  (forall x, In x ops -> cert_safe c x) ->
+  fsem (cert_path c) ops i = i \/ fsem (cert_path c) ops i = None \/
+  fsem (cert_path c) ops i = Some (Raw (c_cert c)).
+Proof.
+  intros c ops. induction ops as [|o r IH]; intros i H; [left; reflexivity|].
+  unfold fsem in *. cbn [fold_left].
+  assert (Hr : forall x, In x r -> cert_safe c x) by (intros; apply H; simpl; auto).
+  assert (Hs : fstep (cert_path c) i o = i \/ fstep (cert_path c) i o = None \/
+               fstep (cert_path c) i o = Some (Raw (c_cert c))).
+  { unfold fstep. destruct (path_eqb (op_path o) (cert_path c)) eqn:Ep; auto.
+    apply path_eqb_eq in Ep. pose proof (H o (or_introl eq_refl) Ep) as Ho.
+    destruct o as [q|q|q ct|q|q|q ct]; auto.
+    - specialize (Ho eq_refl). discriminate.
+    - specialize (Ho eq_refl). discriminate.
+    - specialize (Ho eq_refl). inversion Ho. auto. }
+  destruct (IH (fstep (cert_path c) i o) Hr) as [E|[E|E]]; rewrite E; auto.
+Qed.
+
+(* C11, torn certificates.  With the certificate written through jmc.txt.tmp + os.replace, at EVERY crash point
+   (torn write included) jmc.txt is absent, or exactly what it was before the build, or the complete new text —
+   never a truncated one: the internal names the re-run reads from it are those of the killed build.
+   [cert_exclusive]: neither #copy nor an emitted file lands on jmc.txt. *)
+Theorem crash_cert_whole : forall v c h out fault s ops k,
+  v_cert_atomic v = true -> cert_exclusive c h out = true ->
+  crash_trace (plan v c h out fault s) ops -> exec ops s = Some k ->
+  file_at k (cert_path c) = file_at s (cert_path c) \/ file_at k (cert_path c) = None \/
+  file_at k (cert_path c) = Some (Raw (c_cert c)).
+Proof.
+  intros v c h out fault s ops k Ha Hx Hct He. rewrite (file_at_exec _ _ _ _ He).
+  apply fsem_cert_safe. intros x Hin.
+  inversion Hct as [j|j p ct ct' Hn]; subst.
+  - eapply plan_cert_safe; eauto. eapply firstn_in; eauto.
+  - apply in_app_or in Hin as [Hin|[<-|[]]].
+    + eapply plan_cert_safe; eauto. eapply firstn_in; eauto.
+    + apply nth_error_In in Hn. pose proof (plan_cert_safe _ _ _ _ _ _ _ Ha Hx Hn) as Hs.
+      intros Hp _. specialize (Hs Hp eq_refl). discriminate.
+Qed.
+
+(* [fixed] (jmc.txt written in place): killed inside the write, the certificate is a truncated text *)
+Definition z_cfg : cfg := mkCfg "ns" "function" "LOAD=__load__
+PRIVATE=__private__" "__load__" "__tick__".
+
+Theorem torn_cert_refuted_fixed :
+  exists ops k, crash_trace (plan fixed z_cfg x_hdr (Success x_B) None x_empty) ops /\
+    exec ops x_empty = Some k /\ cert_exclusive z_cfg x_hdr (Success x_B) = true /\
+    file_at k (cert_path z_cfg) = Some (Raw "LOAD=__load__
+PRIVATE=__priv").
+Proof.
+  exists (firstn 3 (plan fixed z_cfg x_hdr (Success x_B) None x_empty) ++
+          [Write (cert_path z_cfg) (Raw "LOAD=__load__
+PRIVATE=__priv")]).
+  eexists. split; [|split; [vm_compute; reflexivity|split; vm_compute; reflexivity]].
+  eapply ct_torn. vm_compute. reflexivity.
+Qed.
+
+(* the same kill under [hardened] tears jmc.txt.tmp; jmc.txt does not exist yet and the re-run is refused *)
+Example torn_tmp_hardened :
+  exists ops k, crash_trace (plan hardened z_cfg x_hdr (Success x_B) None x_empty) ops /\
+    exec ops x_empty = Some k /\
+    file_at k (cert_tmp z_cfg) = Some (Raw "LOAD=__load__
+PRIVATE=__priv") /\ file_at k (cert_path z_cfg) = None /\
+    run hardened z_cfg x_hdr (Success x_B) None k = ([], RRefused).
+Proof.
+  exists (firstn 3 (plan hardened z_cfg x_hdr (Success x_B) None x_empty) ++
+          [Write (cert_tmp z_cfg) (Raw "LOAD=__load__
+PRIVATE=__priv")]).
+  eexists. split; [|split; [vm_compute; reflexivity|repeat split; vm_compute; reflexivity]].
+  eapply ct_torn. vm_compute. reflexivity.
+Qed.
+
+(* C11, crash recovery including the certificate: [crash_recover], and — when jmc.txt is written atomically — the
+   certificate the re-run's front end reads is absent, the one the killed build read, or the complete one it wrote
+   (so the re-run compiles with the same internal names: the [c] and [o] of the statement are indeed the same). *)
+Theorem crash_recover_cert : forall v c h o fault s ops k,
+  sound v ->
+  c_ns c <> "minecraft" -> ready c h s -> static_safe c h o = true ->
+  crash_trace (plan v c h (Success o) fault s) ops -> exec ops s = Some k ->
+  (forall p, excepted h p = true -> file_at k p = file_at s p) /\
+  ( run v c h (Success o) None k = ([], RRefused)
+    \/ forall pl k' s2 pl2 s2',
+         run v c h (Success o) None k = (pl, RDone) -> exec pl k = Some k' ->
+         startable c h s2 -> (forall p, excepted h p = true -> file_at s p = file_at s2 p) ->
+         run v c h (Success o) None s2 = (pl2, RDone) -> exec pl2 s2 = Some s2' ->
+         forall p, inside c h p = true \/ In p (map op_path (filter creates pl)) -> file_at k' p = file_at s2' p ) /\
+  ( v_cert_atomic v = true -> cert_exclusive c h (Success o) = true ->
+    file_at k (cert_path c) = file_at s (cert_path c) \/ file_at k (cert_path c) = None \/
+    file_at k (cert_path c) = Some (Raw (c_cert c)) ).
+Proof.
+  intros v c h o fault s ops k Hv Hmc R Hs Hct He.
+  destruct (crash_recover v c h o fault s ops k Hv Hmc R Hs Hct He) as [A B].
+  split; [exact A|split; [exact B|]]. intros Ha Hx. eapply crash_cert_whole; eauto.
 Qed.
